@@ -62,9 +62,9 @@ def plan_instances(fams, dumped, want, t):
     by = {f["name"]: (f, d) for f, d in zip(fams, dumped)}
     main = [f for f in fams if not f.get("is_sb")]
     quick = t == "quick"
-    Q_WALK = {"chain": [(2, 0)], "dups": [(2, 0), (2, 1)], "prefix3": [(2, 0), (2, 1)], "marker": [(2, 0)], "rnd0": [(2, 0)], "tiny": [(3, 0), (2, 2)]}
+    Q_WALK = {"chain": [(2, 0)], "dups": [(2, 0), (2, 1)], "prefix3": [(2, 0), (2, 1)], "marker": [(2, 0)], "rnd0": [(2, 0)], "tiny": [(3, 0), (2, 2)], "sparse": [(2, 1), (2, 2)]}
     Q_WALKF = {"dups", "prefix3"}
-    Q_HASEXT = {"chain": [0, 1], "prefix3": [0, 1], "tiny": [2]}
+    Q_HASEXT = {"chain": [0, 1], "prefix3": [0, 1], "tiny": [2], "sparse": [2]}
     Q_C02 = {"dups", "utf8", "tiny"}
     Q_RT = {"dups", "marker", "fanout"}
     Q_TOKLEN = {"dups", "marker"}
@@ -126,7 +126,7 @@ def prepare_overlay(tag, want, with_svob=True):
     """Returns (overlay, fams, dumped, inst) or raises RuntimeError(inconclusive reason)."""
     t = tier()
     ov = e1.Overlay(tag)
-    fams = vocab.families(seed(), 2 if t == "quick" else 6)
+    fams = vocab.families(seed(), 2 if t == "quick" else 6, small=(t == "quick"))
     dumped, err = vocab.dump_tables(ov, fams)
     if dumped is None:
         ov.cleanup()
